@@ -49,12 +49,34 @@ def archOpUnmarshal (name : Bytes) (idx : List Nat) (text : Bytes) : Dec :=
     | some n => .ok n
     | none => .ok 0
 
-/-- `Scan` from an `int64` database value. Values `≥ card` are rejected; negative
-    values are not rejected by the code (`v >= int64(len-1)` is the only test)
-    and wrap around `uint`: modelled as `ok (2^64 + v)`. -/
+/-- `Scan` from an `int64` database value (after the fix: only `0 ≤ v < card`
+    is accepted; negative values used to wrap around `uint`). -/
 def enumScanInt (idx : List Nat) (v : Int) : Dec :=
-  if v ≥ (idx.length - 1 : Nat) then .err
-  else if v < 0 then .ok (v + 18446744073709551616).toNat else .ok v.toNat
+  if v < 0 ∨ v ≥ (idx.length - 1 : Nat) then .err else .ok v.toNat
+
+/-- A `database/sql/driver.Value` offered to a `Scan` method: `nil`, `string`,
+    `[]byte`, `int64`, or one of the remaining kinds (`float64`, `bool`,
+    `time.Time`) which no Scanner of these types looks at. -/
+inductive Src where
+  | null
+  | str (b : Bytes)
+  | bytes (b : Bytes)
+  | int (v : Int)
+  | other
+deriving DecidableEq, Repr
+
+/-- `Severity.Scan` / `ArchOp.Scan`: text goes to `UnmarshalText` (`unm`),
+    `int64` to the range check, everything else is an error. -/
+def enumScan (unm : Bytes → Dec) (idx : List Nat) : Src → Dec
+  | .str b => unm b
+  | .bytes b => unm b
+  | .int v => enumScanInt idx v
+  | .null => .err
+  | .other => .err
+
+/-- `Value()` of a member: its name as a `string`. -/
+def enumValue (name : Bytes) (idx : List Nat) (n : Nat) : Option Src :=
+  (enumMarshal name idx n).map .str
 
 /-! ### claircore.Version text form -/
 
@@ -135,5 +157,50 @@ def digestParse (t : Bytes) : Option Digest :=
 
 /-- `Digest.String()` of a digest built by `setChecksum`. -/
 def digestRepr (d : Digest) : Bytes := d.algo ++ 58 :: hexEncode d.checksum
+
+/-- `Digest.UnmarshalText` into a receiver (`none` = the zero Digest). After the
+    fix a rejected text leaves the receiver as it was. Result: receiver after
+    the call, and whether the returned error is nil. -/
+def digestUnmarshal (old : Option Digest) (t : Bytes) : Option Digest × Bool :=
+  match digestParse t with
+  | some d => (some d, true)
+  | none => (old, false)
+
+/-- `Digest.Scan`: `nil` is accepted and leaves the receiver alone, a `string`
+    is decoded (after the fix its error is returned), every other source type
+    (`[]byte` included) is an error. -/
+def digestScan (old : Option Digest) : Src → Option Digest × Bool
+  | .null => (old, true)
+  | .str t => digestUnmarshal old t
+  | .bytes _ => (old, false)
+  | .int _ => (old, false)
+  | .other => (old, false)
+
+/-- `Digest.Value()` / `MarshalText` / `String()`: the stored representation, `""` for the zero Digest. -/
+def digestText : Option Digest → Bytes
+  | none => []
+  | some d => digestRepr d
+
+/-! ### Version.UnmarshalText, with the receiver it leaves behind on error -/
+
+/-- The slot loop, returning the slots as they are when it stops and whether it
+    ran to the end. -/
+def fillSlotsX (v : List Int) : List Bytes → Nat → List Int × Bool
+  | [], _ => (v, true)
+  | p :: ps, i =>
+    if i ≥ 10 then (v, false) else
+    match parseInt32 p with
+    | none => (v, false)
+    | some n => fillSlotsX (setSlot v i n) ps (i + 1)
+
+/-- `Version.UnmarshalText`: receiver after the call and `err == nil`.  The
+    method assigns `Kind` and the slots as it goes, so on an error the receiver
+    holds the new kind and every slot parsed before the bad component. -/
+def versionUnmarshalX (old : Version) (text : Bytes) : Version × Bool :=
+  match cut 58 text with
+  | none => (old, true)
+  | some (kind, rest) =>
+    let r := fillSlotsX old.v (splitOn 46 rest) 0
+    (⟨kind, r.1⟩, r.2)
 
 end ClairModel.Codec
